@@ -201,6 +201,14 @@ ParallelInit(int_t n, pxgstrf_relax_t *pxgstrf_relax,
     }
 #endif
 
+#ifdef SLU_MT_VERIF
+    for (i = 0; i < n; ++i)
+	SLU_MT_VERIF_EVENT(15, -1, i, etree[i], pxgstrf_shared->pan_status[i].size);
+    for (i = 0; i < n; ++i)
+	if ( pxgstrf_shared->pan_status[i].size > 0 )
+	    SLU_MT_VERIF_EVENT(16, -1, i, pxgstrf_shared->pan_status[i].type, pxgstrf_shared->pan_status[i].ukids);
+    SLU_MT_VERIF_EVENT(17, -1, pxgstrf_shared->tasks_remain, pxgstrf_shared->taskq.count, n);
+#endif
     return 0;
 } /* ParallelInit */
 
